@@ -40,36 +40,42 @@ theorem cacheLookup_store (c : Cache) (k k' : String × Tag) (v : Nat × CodeDes
     simp only [List.lookup_cons, this, h, if_false]
     exact lookup_filter_ne c k k' h
 
-theorem tagFor_getCode (l : Load) :
-    tagFor .getCode l = (match l.hookedWith with | some key => .jaxtyping key | none => .default) := by
+theorem tagFor_getCode (w : Bool) (l : Load) :
+    tagFor .getCode w l = (match l.hookedWith with | some key => .jaxtyping key | none => .default) := by
   unfold tagFor
-  cases l.hookedWith <;> rfl
+  cases l.hookedWith <;> cases w <;> rfl
 
-theorem instr_tagFor_getCode (l : Load) :
-    (match (tagFor .getCode l) with | .default => none | .jaxtyping key => some key) = l.hookedWith := by
+theorem instr_tagFor_getCode (w : Bool) (l : Load) :
+    (match (tagFor .getCode w l) with | .default => none | .jaxtyping key => some key) = l.hookedWith := by
   rw [tagFor_getCode]
   cases l.hookedWith <;> rfl
 
-theorem cacheInv_store (c : Cache) (hc : CacheInv' c) (version : Nat) (l : Load) :
-    CacheInv' (cacheStore c (l.name, tagFor .getCode l) (version, ⟨version, l.hookedWith⟩)) := by
+theorem cacheInv_store (c : Cache) (hc : CacheInv' c) (w : Bool) (version : Nat) (l : Load) :
+    CacheInv' (cacheStore c (l.name, tagFor .getCode w l) (version, ⟨version, l.hookedWith⟩)) := by
   intro k v code hk
   rw [cacheLookup_store] at hk
-  by_cases h : k = (l.name, tagFor .getCode l)
+  by_cases h : k = (l.name, tagFor .getCode w l)
   · rw [if_pos h] at hk
     cases hk
     subst h
-    exact ⟨rfl, (instr_tagFor_getCode l).symm⟩
+    exact ⟨rfl, (instr_tagFor_getCode w l).symm⟩
   · rw [if_neg h] at hk
     exact hc k v code hk
 
-theorem loadModule_ok (version : Nat) (c : Cache) (hc : CacheInv' c) (l : Load) :
-    CacheInv' (loadModule .getCode version c l).1 ∧
-      (loadModule .getCode version c l).2.version = version ∧
-      (loadModule .getCode version c l).2.instr = l.hookedWith := by
+theorem cacheInv_maybe_store (c : Cache) (hc : CacheInv' c) (w : Bool) (version : Nat) (l : Load) :
+    CacheInv' (if w then cacheStore c (l.name, tagFor .getCode w l) (version, ⟨version, l.hookedWith⟩) else c) := by
+  cases w
+  · exact hc
+  · exact cacheInv_store c hc true version l
+
+theorem loadModule_ok (w : Bool) (version : Nat) (c : Cache) (hc : CacheInv' c) (l : Load) :
+    CacheInv' (loadModule .getCode w version c l).1 ∧
+      (loadModule .getCode w version c l).2.version = version ∧
+      (loadModule .getCode w version c l).2.instr = l.hookedWith := by
   unfold loadModule
   simp only
-  cases hlk : cacheLookup c (l.name, tagFor .getCode l) with
-  | none => exact ⟨cacheInv_store c hc version l, rfl, rfl⟩
+  cases hlk : cacheLookup c (l.name, tagFor .getCode w l) with
+  | none => exact ⟨cacheInv_maybe_store c hc w version l, rfl, rfl⟩
   | some vc =>
     obtain ⟨v, code⟩ := vc
     by_cases hv : v = version
@@ -77,19 +83,19 @@ theorem loadModule_ok (version : Nat) (c : Cache) (hc : CacheInv' c) (l : Load) 
       rw [if_pos hv]
       obtain ⟨h1, h2⟩ := hc _ _ _ hlk
       refine ⟨hc, h1.trans hv, ?_⟩
-      rw [h2]; exact instr_tagFor_getCode l
+      rw [h2]; exact instr_tagFor_getCode w l
     · dsimp only
       rw [if_neg hv]
-      exact ⟨cacheInv_store c hc version l, rfl, rfl⟩
+      exact ⟨cacheInv_maybe_store c hc w version l, rfl, rfl⟩
 
-theorem runLoads_ok (versions : String → Nat) (ls : List Load) (c : Cache) (hc : CacheInv' c) :
-    CacheInv' (runLoads .getCode versions c ls).1 ∧
-      (runLoads .getCode versions c ls).2.length = ls.length ∧
-      ∀ p ∈ ls.zip (runLoads .getCode versions c ls).2, LoadOk' versions p.1 p.2 := by
+theorem runLoads_ok (w : Bool) (versions : String → Nat) (ls : List Load) (c : Cache) (hc : CacheInv' c) :
+    CacheInv' (runLoads .getCode w versions c ls).1 ∧
+      (runLoads .getCode w versions c ls).2.length = ls.length ∧
+      ∀ p ∈ ls.zip (runLoads .getCode w versions c ls).2, LoadOk' versions p.1 p.2 := by
   induction ls generalizing c with
   | nil => exact ⟨hc, rfl, by simp [runLoads]⟩
   | cons l ls ih =>
-    obtain ⟨h1, h2, h3⟩ := loadModule_ok (versions l.name) c hc l
+    obtain ⟨h1, h2, h3⟩ := loadModule_ok w (versions l.name) c hc l
     obtain ⟨i1, i2, i3⟩ := ih _ h1
     simp only [runLoads]
     refine ⟨i1, by simp [i2], ?_⟩
@@ -99,16 +105,15 @@ theorem runLoads_ok (versions : String → Nat) (ls : List Load) (c : Cache) (hc
     · exact ⟨rfl, h2, h3⟩
     · exact i3 p hp
 
-theorem history_correct' (runs : List ((String → Nat) × List Load)) (c : Cache) (hc : CacheInv' c) :
+theorem history_correct' (runs : List Run) (c : Cache) (hc : CacheInv' c) :
     CacheInv' (runHistory .getCode c runs).1 ∧ (runHistory .getCode c runs).2.length = runs.length ∧
     ∀ i (hi : i < runs.length) (hi' : i < (runHistory .getCode c runs).2.length),
-      ((runHistory .getCode c runs).2[i]).length = (runs[i]).2.length ∧
-      ∀ p ∈ (runs[i]).2.zip ((runHistory .getCode c runs).2[i]), LoadOk' (runs[i]).1 p.1 p.2 := by
+      ((runHistory .getCode c runs).2[i]).length = (runs[i]).loads.length ∧
+      ∀ p ∈ (runs[i]).loads.zip ((runHistory .getCode c runs).2[i]), LoadOk' (runs[i]).versions p.1 p.2 := by
   induction runs generalizing c with
   | nil => exact ⟨hc, rfl, fun i hi => absurd hi (Nat.not_lt_zero i)⟩
   | cons r rs ih =>
-    obtain ⟨vs, ls⟩ := r
-    obtain ⟨h1, h2, h3⟩ := runLoads_ok vs ls c hc
+    obtain ⟨h1, h2, h3⟩ := runLoads_ok r.writes r.versions r.loads c hc
     obtain ⟨i1, i2, i3⟩ := ih _ h1
     simp only [runHistory]
     refine ⟨i1, by simp [i2], ?_⟩
@@ -119,22 +124,22 @@ theorem history_correct' (runs : List ((String → Nat) × List Load)) (c : Cach
       simp only [List.getElem_cons_succ]
       exact i3 j (by simpa using hi) (by simpa using hi')
 
-theorem history_correct (c : Cache) (hc : CacheInv' c) (runs : List ((String → Nat) × List Load)) :
+theorem history_correct (c : Cache) (hc : CacheInv' c) (runs : List Run) :
     let r := runHistory .getCode c runs
     CacheInv' r.1 ∧ r.2.length = runs.length ∧
     ∀ i (hi : i < runs.length) (hi' : i < r.2.length),
-      (r.2[i]).length = (runs[i]).2.length ∧
-      ∀ p ∈ (runs[i]).2.zip (r.2[i]), LoadOk' (runs[i]).1 p.1 p.2 :=
+      (r.2[i]).length = (runs[i]).loads.length ∧
+      ∀ p ∈ (runs[i]).loads.zip (r.2[i]), LoadOk' (runs[i]).versions p.1 p.2 :=
   history_correct' runs c hc
 
 theorem cacheInv_nil : CacheInv' [] := by
   intro k v code h
   simp [cacheLookup] at h
 
-theorem tags_distinct (l₁ l₂ : Load) (h : l₁.hookedWith ≠ l₂.hookedWith) :
-    tagFor .getCode l₁ ≠ tagFor .getCode l₂ := by
+theorem tags_distinct (w₁ w₂ : Bool) (l₁ l₂ : Load) (h : l₁.hookedWith ≠ l₂.hookedWith) :
+    tagFor .getCode w₁ l₁ ≠ tagFor .getCode w₂ l₂ := by
   intro heq
   apply h
-  rw [← instr_tagFor_getCode l₁, ← instr_tagFor_getCode l₂, heq]
+  rw [← instr_tagFor_getCode w₁ l₁, ← instr_tagFor_getCode w₂ l₂, heq]
 
 end JV
